@@ -582,11 +582,32 @@ func errSwapIdInUse(swapId *SwapId) error {
 	return fmt.Errorf("swap id %s is already in use", swapId.String())
 }
 
+// maxSwapAmountSat is the largest amount whose value in msat fits a uint64.
+const maxSwapAmountSat = ^uint64(0) / 1000
+
+// refuseOversizedAmount answers a request whose amount cannot be expressed
+// in msat with a cancel (amount*1000 would wrap around in every later check).
+func (s *SwapService) refuseOversizedAmount(swapId *SwapId, peerId string, amount uint64) error {
+	err := fmt.Errorf("amount %d sat is too large", amount)
+	msgBytes, msgType, merr := MarshalPeerswapMessage(&CancelMessage{
+		SwapId:  swapId,
+		Message: fmt.Sprintf("from the %s peer: %s", s.swapServices.lightning.Implementation(), err.Error()),
+	})
+	if merr != nil {
+		return merr
+	}
+	s.swapServices.messenger.SendMessage(peerId, msgBytes, msgType)
+	return err
+}
+
 // OnSwapInRequestReceived creates a new swap-in process and sends the event to the swap statemachine
 func (s *SwapService) OnSwapInRequestReceived(swapId *SwapId, peerId string, message *SwapInRequestMessage) error {
 	// A request must never replace a swap we already know under this id.
 	if s.swapIdKnown(swapId) {
 		return errSwapIdInUse(swapId)
+	}
+	if message.Amount > maxSwapAmountSat {
+		return s.refuseOversizedAmount(swapId, peerId, message.Amount)
 	}
 	var (
 		premiumValue int64
@@ -702,6 +723,9 @@ func (s *SwapService) OnSwapOutRequestReceived(swapId *SwapId, peerId string, me
 	// A request must never replace a swap we already know under this id.
 	if s.swapIdKnown(swapId) {
 		return errSwapIdInUse(swapId)
+	}
+	if message.Amount > maxSwapAmountSat {
+		return s.refuseOversizedAmount(swapId, peerId, message.Amount)
 	}
 	var (
 		premiumValue int64
